@@ -200,6 +200,65 @@ def setWeights (e : Ens) (ws : List Num) : Option Ens :=
 def setCharges (e : Ens) (qs : List (List Num)) : Option Ens :=
   if qs.length = e.charges.length ∧ qs.all (fun q => q.length == e.nA) then some { e with charges := qs } else none
 
+/-! ### what numpy accepts: broadcasting of the arguments
+
+`coords += v`, `coords += v[:, None, :]`, `coords @ R`, `arr[:] = x` accept more than the exact shape: a length-1 leading
+axis is repeated over the conformers, a length-1 last axis over x, y, z.  Everything else - a count that is neither 1 nor
+`n_conformers`, 2 or 4 components, ragged lists - raises and leaves the ensemble as it was.  (The atom axis of an argument
+is always exact here: the histories never pass a single row for several atoms.) -/
+
+/-- a leading axis of length `n`, or of length 1 repeated `n` times -/
+def bcast {α : Type} (n : Nat) (xs : List α) : Option (List α) :=
+  if xs.length = n then some xs
+  else match xs with
+    | [x] => some (List.replicate n x)
+    | _ => none
+
+/-- three components, or one repeated three times -/
+def norm3 : List Num → Option Row
+  | [x] => some [x, x, x]
+  | [a, b, c] => some [a, b, c]
+  | _ => none
+
+/-- `np.array(list_of_lists)` refuses ragged input -/
+def uniform {β : Type} : List (List β) → Bool
+  | [] => true
+  | l :: r => r.all (fun x => x.length == l.length)
+
+def normVecs (vs : List (List Num)) : Option (List Row) := if uniform vs then vs.mapM norm3 else none
+
+/-- a 3 × 3 matrix, or a 3 × 1 matrix whose single column is repeated -/
+def normMat (m : Mat) : Option Mat := if m.length = 3 ∧ uniform m then m.mapM norm3 else none
+
+def sameShapes (ms : List Mat) : Bool :=
+  uniform ms && uniform (ms.map (fun m => m.flatten)) && ms.all uniform
+
+/-- `ens.translate(v)`, `v` one-dimensional -/
+def translateB (e : Ens) (v : List Num) : Option Ens := (norm3 v).bind (translate e)
+
+/-- `ens.translate(vs)`, `vs` two-dimensional -/
+def translateEachB (e : Ens) (vs : List (List Num)) : Option Ens :=
+  (normVecs vs).bind (fun vs' => (bcast e.nC vs').bind (translateEach e))
+
+/-- `ens.rotate(R)`, `R` two-dimensional -/
+def rotateB (e : Ens) (m : Mat) : Option Ens := (normMat m).bind (rotate e)
+
+/-- `ens.rotate(Rs)`, `Rs` three-dimensional -/
+def rotateEachB (e : Ens) (ms : List Mat) : Option Ens :=
+  if sameShapes ms then (ms.mapM normMat).bind (fun ms' => (bcast e.nC ms').bind (rotateEach e)) else none
+
+/-- the item that is repeated has to fit even when it is repeated zero times -/
+def setCoordsB (e : Ens) (cs : List Conf) : Option Ens :=
+  if cs.all (confOk e.nA) then (bcast e.nC cs).bind (setCoords e) else none
+def setWeightsB (e : Ens) (ws : List Num) : Option Ens := (bcast e.weights.length ws).bind (setWeights e)
+def setChargesB (e : Ens) (qs : List (List Num)) : Option Ens :=
+  if qs.all (fun q => q.length == e.nA) then (bcast e.charges.length qs).bind (setCharges e) else none
+
+/-- the ensemble after a trip through the library codec (`lib[k] = ens; ens = lib[k]`): a NEW object holding the same
+arrays (the histories only use values float32 represents exactly), which must behave like a constructed one under
+every later operation; needs a rectangular ensemble -/
+def reloaded (e : Ens) : Option Ens := if e.rect then some e else none
+
 /-! ### conformers: `ens[i]` is the index `i` -/
 
 /-- what a conformer shows: its coordinate rows and its partial charges (everything else is the parent's) -/
@@ -368,6 +427,8 @@ inductive Op
   | readKept (j : Nat)
   | writeKept (j : Nat) (c : Conf)
   | dumpKept (j : Nat)
+  /-- `lib[k] = ens; ens = lib[k]`: go on with the deserialised object -/
+  | reload
   deriving Repr
 
 inductive Out
@@ -440,13 +501,17 @@ def step (v : Variant) (w : World) : Op → World × Out
   | .extendGeoms gs => upd w (extendGeoms v w.ens gs)
   | .scale f a => upd w (scale w.ens f a)
   | .invert => upd w (scale w.ens (-1) true)
-  | .translate x => upd w (translate w.ens x)
-  | .translateEach vs => upd w (translateEach w.ens vs)
-  | .rotate m => upd w (rotate w.ens m)
-  | .rotateEach ms => upd w (rotateEach w.ens ms)
-  | .setCoords cs => upd w (setCoords w.ens cs)
-  | .setWeights ws => upd w (setWeights w.ens ws)
-  | .setCharges qs => upd w (setCharges w.ens qs)
+  | .translate x => upd w (translateB w.ens x)
+  | .translateEach vs => upd w (translateEachB w.ens vs)
+  | .rotate m => upd w (rotateB w.ens m)
+  | .rotateEach ms => upd w (rotateEachB w.ens ms)
+  | .setCoords cs => upd w (setCoordsB w.ens cs)
+  | .setWeights ws => upd w (setWeightsB w.ens ws)
+  | .setCharges qs => upd w (setChargesB w.ens qs)
+  | .reload =>
+    match reloaded w.ens with
+    | some e => (rebindIn w e, .ok)
+    | none => (w, .err)
   | .writeCoords i c => upd w (writeCoords w.ens i c)
   | .writeCharges i q => upd w (writeCharges v w.ens i q)
   | .writeAtom i a xyz => upd w (writeAtom w.ens i a xyz)
